@@ -454,8 +454,123 @@ fn file_family<T: ColumnType + 'static>(case: &Value) -> Value {
     v
 }
 
+/// family "update": Runner::update_test_file on a real tree, then run_file against the same
+/// scripted database, then a second update.  Optional crash: the mock driver panics at request k.
+fn update_family<T: ColumnType + 'static>(case: &Value) -> Value {
+    let tree = Tree::create(&case["files"]);
+    let main_abs = format!("{}{}", tree.prefix(), case["main"].as_str().unwrap());
+    let sep = case.get("sep").and_then(|s| s.as_str()).unwrap_or(" ").to_string();
+    let strict = case.get("strict_cols").and_then(|b| b.as_bool()).unwrap_or(false);
+    let mut out = serde_json::Map::new();
+    let (fs_tbl, glob_tbl, re_tbl) = fs_glob_tables::<T>(&main_abs);
+    out.insert("fs".into(), fs_tbl);
+    out.insert("glob".into(), glob_tbl);
+    out.insert("re_valid".into(), re_tbl);
+    let before = catch_unwind(AssertUnwindSafe(|| parse_file::<T>(&main_abs)));
+    match &before {
+        Ok(Ok(rs)) => {
+            out.insert("parse".into(), json!(["ok", rs.iter().map(record_json).collect::<Vec<_>>()]));
+            out.insert("oracle".into(), oracle_table(rs, case));
+        }
+        Ok(Err(e)) => {
+            out.insert("parse".into(), parse_error_json(e));
+        }
+        Err(_) => {
+            out.insert("parse".into(), json!(["panic"]));
+        }
+    }
+    let originals: Vec<(String, Vec<u8>)> = {
+        let mut v = vec![];
+        if let Value::Array(a) = tree.listing() {
+            for e in a {
+                let rel = e[0].as_str().unwrap().to_string();
+                let bytes = std::fs::read(tree.root.join(&rel)).unwrap();
+                v.push((rel, bytes));
+            }
+        }
+        v
+    };
+    let cv: ColumnTypeValidator<T> = if strict { strict_column_validator } else { default_column_validator };
+    let do_update = |answers_case: &Value, snapshots: Option<Arc<Mutex<Vec<Value>>>>| -> (Value, Value) {
+        let shared = make_shared(answers_case);
+        if let Some(snaps) = snapshots {
+            let root = tree.root.clone();
+            let orig = originals.clone();
+            shared.lock().unwrap().on_request = Some(Box::new(move |k| {
+                // which original files differ from their old content right now?
+                for (rel, old) in &orig {
+                    let cur = std::fs::read(root.join(rel)).unwrap_or_default();
+                    if &cur != old {
+                        snaps.lock().unwrap().push(json!([k, rel, String::from_utf8_lossy(&cur)]));
+                    }
+                }
+            }));
+        }
+        set_current(Some(shared.clone()));
+        let mut runner = Runner::new(MockMaker::<T>::new(shared.clone()));
+        configure(answers_case, &mut runner);
+        let res = catch_unwind(AssertUnwindSafe(|| {
+            futures::executor::block_on(runner.update_test_file(&main_abs, &sep, default_validator, default_normalizer, cv))
+                .map_err(|e| e.to_string())
+        }));
+        let r = match res {
+            Ok(Ok(())) => json!(["ok"]),
+            Ok(Err(e)) => json!(["err", e]),
+            Err(_) => json!(["panic"]),
+        };
+        let _ = catch_unwind(AssertUnwindSafe(|| runner.shutdown()));
+        drop(runner);
+        set_current(None);
+        shared.lock().unwrap().on_request = None;
+        let ev = Value::Array(shared.lock().unwrap().events.clone());
+        (r, ev)
+    };
+    let snaps = Arc::new(Mutex::new(vec![]));
+    let (r1, ev1) = do_update(case, Some(snaps.clone()));
+    out.insert("update1".into(), r1.clone());
+    out.insert("events1".into(), ev1);
+    out.insert("snapshots".into(), Value::Array(snaps.lock().unwrap().clone()));
+    out.insert("listing1".into(), tree.listing());
+    if r1 == json!(["ok"]) && case.get("panic_at").is_none() {
+        let after = catch_unwind(AssertUnwindSafe(|| parse_file::<T>(&main_abs)));
+        out.insert("parse_after".into(), match &after {
+            Ok(Ok(rs)) => json!(["ok", rs.iter().map(record_json).collect::<Vec<_>>()]),
+            Ok(Err(e)) => parse_error_json(e),
+            Err(_) => json!(["panic"]),
+        });
+        // run the updated file against the same database from the same initial state
+        let shared = make_shared(case);
+        set_current(Some(shared.clone()));
+        let mut runner = Runner::new(MockMaker::<T>::new(shared.clone()));
+        configure(case, &mut runner);
+        let res = catch_unwind(AssertUnwindSafe(|| runner.run_file(&main_abs)));
+        out.insert("run".into(), match res {
+            Err(_) => json!(["panic"]),
+            Ok(Ok(())) => json!(["ok"]),
+            Ok(Err(e)) => test_error_json(&e),
+        });
+        runner.shutdown();
+        drop(runner);
+        set_current(None);
+        out.insert("events_run".into(), Value::Array(shared.lock().unwrap().events.clone()));
+        let (r2, _) = do_update(case, None);
+        out.insert("update2".into(), r2);
+        out.insert("listing2".into(), tree.listing());
+    }
+    let v = strip_prefix_json(&Value::Object(out), &tree.prefix());
+    drop(tree);
+    v
+}
+
 fn dispatch(family: &str, case: &Value) -> Value {
     match family {
+        "update" => {
+            if case.get("coltype").and_then(|s| s.as_str()) == Some("two") {
+                update_family::<TwoType>(case)
+            } else {
+                update_family::<DefaultColumnType>(case)
+            }
+        }
         "file" => {
             if case.get("coltype").and_then(|s| s.as_str()) == Some("two") {
                 file_family::<TwoType>(case)
@@ -488,9 +603,28 @@ fn dispatch(family: &str, case: &Value) -> Value {
     }
 }
 
+/// replace the per-runner test directory and the __NOW__ timestamp by placeholders
+fn canon_dynamic(v: &Value, re_testdir: &regex::Regex, re_now: &regex::Regex) -> Value {
+    match v {
+        Value::String(s) => {
+            let a = re_testdir.replace_all(s, "<TESTDIR>");
+            Value::String(re_now.replace_all(&a, "<NOW>").to_string())
+        }
+        Value::Array(a) => Value::Array(a.iter().map(|x| canon_dynamic(x, re_testdir, re_now)).collect()),
+        Value::Object(o) => Value::Object(o.iter().map(|(k, x)| (k.clone(), canon_dynamic(x, re_testdir, re_now))).collect()),
+        x => x.clone(),
+    }
+}
+
 fn main() {
     let family = std::env::args().nth(1).expect("usage: slt-impl <family>");
     std::panic::set_hook(Box::new(|_| {}));
+    // per-runner test directories are created below a known directory so that they can be canonicalised
+    let td = std::env::var("SLT_HARNESS_TMP").unwrap_or_else(|_| "/verif/.cache/tmp".to_string()) + "/td";
+    std::fs::create_dir_all(&td).unwrap();
+    std::env::set_var("TMPDIR", &td);
+    let re_testdir = regex::Regex::new(&format!("{}/\\.tmp[A-Za-z0-9]{{6}}", regex::escape(&td))).unwrap();
+    let re_now = regex::Regex::new(r"\b1[0-9]{18}\b").unwrap();
     let stdin = std::io::stdin();
     let stdout = std::io::stdout();
     let mut w = std::io::BufWriter::new(stdout.lock());
@@ -500,7 +634,20 @@ fn main() {
             continue;
         }
         let case: Value = serde_json::from_str(&line).expect("bad case json");
+        // process environment for this case (substitution falls back to it)
+        let mut env_set: Vec<String> = vec![];
+        if let Some(env) = case.get("env").and_then(|e| e.as_array()) {
+            for kv in env {
+                let k = kv[0].as_str().unwrap().to_string();
+                std::env::set_var(&k, kv[1].as_str().unwrap());
+                env_set.push(k);
+            }
+        }
         let res = catch_unwind(AssertUnwindSafe(|| dispatch(&family, &case)));
+        for k in env_set {
+            std::env::remove_var(k);
+        }
+        let res = res.map(|v| canon_dynamic(&v, &re_testdir, &re_now));
         let v = match res {
             Ok(v) => v,
             Err(p) => {
